@@ -58,7 +58,7 @@ type opKind string
 // after an increment of its own: the transaction must read its own write)
 // QAERR executes the text of QA with one argument too many: a failure private to the caller (the statement
 // itself is fine), which must neither cost the other users of that text their statement nor a new preparation.
-var opKinds = []opKind{"QA", "QB", "FIND", "EXEC", "TXQA", "TXEXEC", "QA", "QB", "ROW", "TXROW", "QAERR", "TXNEST"}
+var opKinds = []opKind{"QA", "QB", "FIND", "EXEC", "TXQA", "TXEXEC", "QA", "QB", "ROW", "TXROW", "QAERR", "TXNEST", "CONNQA"}
 
 type opResult struct {
 	op          opKind
@@ -187,6 +187,10 @@ func (w *world) runOp(worker int, op opKind) opResult {
 		r.err = db.Raw(textB, 2).Scan(&r.val).Error
 	case "QAERR":
 		r.err = db.Raw(textA, 1, 2).Scan(&r.val).Error
+	case "CONNQA":
+		// the text of QA on a dedicated connection (db.Connection): whatever that does with the statement cache, the
+		// other users of the text must not end up on that connection, nor on it after it was given back
+		r.err = db.Connection(func(tx *gorm.DB) error { return tx.Raw(textA, 1).Scan(&r.val).Error })
 	case "FIND":
 		var p PS
 		res := db.First(&p, 2)
@@ -247,7 +251,7 @@ func (w *world) runOp(worker int, op opKind) opResult {
 
 func expected(op opKind) (string, int64) {
 	switch op {
-	case "QA", "TXQA":
+	case "QA", "TXQA", "CONNQA":
 		return "a", 0
 	case "QB", "FIND":
 		return "b", 0
